@@ -794,7 +794,11 @@ def face_to_vertex_color(
     """
     rgba = to_rgba(face_colors)
     vertex = mesh.faces_sparse.dot(rgba.astype(np.float64))
-    degree = mesh.vertex_degree
+    # the sparse product adds a face once for every corner
+    # that is on the vertex so that is what we divide by
+    degree = np.bincount(
+        mesh.faces.view(np.ndarray).reshape(-1), minlength=len(mesh.vertices)
+    )
 
     # normalize color by the number of faces including
     # the vertex (i.e. the vertex degree)
